@@ -74,6 +74,38 @@ def adversarial(bits, rng, count):
     return keep
 
 
+def forced_digit_cases(bits, rng, count):
+    """Knuth D with the running remainder's two leading limbs equal to the divisor's two leading limbs (quotient digit
+    forced to 2^64-1), for normalised (shift = 0) and un-normalised divisors of every length >= 3, with the third
+    remainder limb just below the divisor's third limb and large (so that partial-subtraction shortcuts would carry).
+    Built as N = rho * B^k + tail with rho = [.., r, d_{n-2}, d_{n-1}], r < d_{n-3}."""
+    Bw = 1 << 64
+    L = nlimbs(bits)
+    mx = (1 << bits) - 1
+    out = []
+    for n in range(3, L + 1):
+        for _ in range(count):
+            topbits = 64 if n < L else bits - 64 * (L - 1)
+            lz = rng.choice([0, 0, 1, 31, 63])
+            if lz >= topbits:
+                lz = 0
+            top = ((1 << (topbits - lz)) - 1) if rng.random() < 0.5 else (rng.getrandbits(topbits - lz) | (1 << (topbits - lz - 1)))
+            d = [rng.choice([Bw - 1, Bw - 2, 1 << 63, rng.getrandbits(64)]) for _ in range(n - 1)] + [top]
+            d[n - 2] = rng.choice([Bw - 1, Bw - 2, (1 << 63) + 5, rng.getrandbits(64) | (1 << 63)])
+            if d[n - 3] == 0:
+                d[n - 3] = Bw - 1
+            r = rng.choice([d[n - 3] - 1, max(d[n - 3] - 2, 0), d[n - 3] >> 1])
+            rho = [rng.getrandbits(64) for _ in range(n - 3)] + [r, d[n - 2], d[n - 1]]
+            dv = sum(x << (64 * i) for i, x in enumerate(d))
+            rv = sum(x << (64 * i) for i, x in enumerate(rho))
+            for k in range(0, L - n + 1):
+                tail = rng.getrandbits(64 * k) if k else 0
+                N = (rv << (64 * k)) | tail
+                if N <= mx and dv <= mx and dv:
+                    out.append((N, dv))
+    return out
+
+
 def scenarios(tier, rng):
     quick = tier == "quick"
     sc = []
@@ -92,6 +124,8 @@ def scenarios(tier, rng):
             ps = adversarial(bits, rng, n)
             if bits <= 576:
                 ps += pairs(bits, rng, n // 3)
+            if 129 <= bits <= 1100:
+                ps += forced_digit_cases(bits, rng, 3 if quick else 25)
         for a, b in dict.fromkeys(ps):
             sc.append({"g": "arith", "op": "div", "bits": bits, "a": tobytes(a), "b": tobytes(b)})
     return {"ux_arith": sc}
